@@ -59,6 +59,7 @@ def daemon_cover(rep, name, c):
         r = cb.TlcResult("", 0, 0.0)
         r.distinct, r.generated, r.depth, r.ok = m["distinct"], m["generated"], m["depth"], True
         rep.add_tlc(r, f"TLC Daemon cover {name} (cached)")
+        os.utime(bfile)
         return bfile, m["behaviours"]
     cfg = daemon_cfg("DR_" + name, "RSpec", c, ["Tracks", "NoTrustBeforeMeasure", "PhcRule"], view="ViewNoSid")
     out = os.path.join(cb.WORK, f"DR_{name}.out")
@@ -71,6 +72,7 @@ def daemon_cover(rep, name, c):
     cb.write_behaviours(bfile, behs, {"cfg": name, "consts": {"PhcConfigured": c["phc"], "Drift": 50000}})
     json.dump({"distinct": r.distinct, "generated": r.generated, "depth": r.depth, "behaviours": len(behs)}, open(meta, "w"))
     rep.add_tlc(r, f"TLC Daemon cover {name}: {len(edges)} transitions, {len(behs)} maximal paths")
+    cb.prune_cache(cdir, "d_" + name)
     return bfile, len(behs)
 
 
